@@ -1419,6 +1419,8 @@ class Interp(object):
             return (a[0], a[1] + b[1])
         if op == "+" and a[0] == "list" and b[0] == "listof" and not a[1]:
             return b
+        if op == "+" and a[0] == "listof" and b[0] == "list":
+            return ("listof", a[1], a[2] + b[1])  # list(xs) + [y, z]
         return ("bin", op, a, b)
 
     def ex_BinOp(self, node, path):
@@ -1577,7 +1579,7 @@ class Interp(object):
         out = []
         # list / set objects created on this path are mutable cells:  xs = [] ... xs.append(v)
         f = node.func
-        if fv_known is None and isinstance(f, ast.Attribute) and f.attr in ("append", "add", "insert") and not node.keywords and len(node.args) in (1, 2):
+        if fv_known is None and isinstance(f, ast.Attribute) and f.attr in ("append", "add", "insert", "extend") and not node.keywords and len(node.args) in (1, 2):
             handled = False
             for base, p0 in self.eval(f.value, path):
                 if p0.status != "ok" or not (isinstance(base, tuple) and base and base[0] == "ref" and base in p0.heap):
@@ -1594,6 +1596,20 @@ class Interp(object):
                         continue
                     cur2 = p.heap.get(base)
                     v = args[-1]
+                    if f.attr == "extend":
+                        # xs.extend(ys): an empty or literal list followed by all of ys
+                        ysd = self.deref(v, p)
+                        if cur2[0] == "list" and isinstance(ysd, tuple) and ysd and ysd[0] == "list":
+                            p.heap[base] = ("list", cur2[1] + ysd[1])
+                        elif cur2[0] == "list" and not cur2[1]:
+                            p.heap[base] = ("listof", v, ())
+                        else:
+                            p.heap[base] = ("bin", "+", cur2, ("listof", v, ()))
+                        self.emit(p, "call", node, {"func": ("attr", base, f.attr), "args": tuple(args), "kwargs": (), "callee": None, "user": False, "inlined": False, "approx": False, "builtin": True})
+                        out.append((NONE, p))
+                        continue
+                    if cur2[0] not in ("list", "set", "listof"):
+                        cur2 = ("listof", cur2, ())
                     front = f.attr == "insert" and len(args) == 2 and args[0] == ("const", 0)
                     if f.attr == "insert" and not front:
                         p.heap[base] = ("listof", ("unknown-order", cur2), (v,))
